@@ -815,6 +815,30 @@ Theorem meta_no_exit_refuted :
   commit_meta_gen false wit_child_commit = (wit_tree_X, Some wit_parent_P).
 Proof. vm_compute. repeat split; reflexivity. Qed.
 
+(* ================================================================== (e) write or fall back *)
+(* a written note that is not the recomputed one is a remapped copy of the original, and that
+   happens only when the recomputed note has neither attestations nor prompt records *)
+Theorem replay_copy_only_when_empty fb a p rec orig new w :
+  (replay_write_rebase_gen true fb a p rec orig new = Some w \/
+   replay_write_cherry_gen true fb a p rec orig new = Some w) ->
+  w <> rec ->
+  a = false /\ p = false /\ exists raw, orig = Some raw /\ w = remap_note fb raw new.
+Proof.
+  unfold replay_write_rebase_gen, replay_write_cherry_gen, has_payload.
+  destruct a, p; cbn [orb andb]; intros [H|H] Hw; inversion H; subst; try congruence;
+    destruct orig as [raw|]; inversion H; subst; try congruence;
+    (split; [reflexivity|split; [reflexivity|exists raw; split; reflexivity]]).
+Qed.
+
+(* with the prompt disjunct dropped, a recomputed note that still has its prompt record but
+   attributes no line is replaced by a copy of the original *)
+Theorem replay_narrow_refuted fb rec raw new :
+  replay_write_rebase_gen false fb false true rec (Some raw) new = Some (remap_note fb raw new) /\
+  replay_write_cherry_gen false fb false true rec (Some raw) new = Some (remap_note fb raw new) /\
+  replay_write_rebase_gen true fb false true rec (Some raw) new = Some rec /\
+  replay_write_cherry_gen true fb false true rec (Some raw) new = Some rec.
+Proof. repeat split; reflexivity. Qed.
+
 (* ================================================================== witnesses *)
 Definition wit_bad_note : str := [34; 98; 97; 115; 101; 95; 99; 111; 109; 109; 105; 116; 95; 115; 104; 97; 34; 58; 34; 120; 34; 46; 116; 120; 116; 10; 32; 32; 97; 98; 99; 100; 32; 49; 10; 45; 45; 45; 10; 123; 10; 32; 32; 34; 115; 99; 104; 101; 109; 97; 95; 118; 101; 114; 115; 105; 111; 110; 34; 58; 32; 34; 97; 117; 116; 104; 111; 114; 115; 104; 105; 112; 47; 51; 46; 48; 46; 48; 34; 44; 10; 32; 32; 34; 103; 105; 116; 95; 97; 105; 95; 118; 101; 114; 115; 105; 111; 110; 34; 58; 32; 34; 49; 46; 49; 46; 56; 34; 44; 10; 32; 32; 34; 98; 97; 115; 101; 95; 99; 111; 109; 109; 105; 116; 95; 115; 104; 97; 34; 58; 32; 34; 48; 108; 100; 34; 44; 10; 32; 32; 34; 112; 114; 111; 109; 112; 116; 115; 34; 58; 32; 123; 125; 10; 125].
 Definition wit_bad_att' : str := [34; 98; 97; 115; 101; 95; 99; 111; 109; 109; 105; 116; 95; 115; 104; 97; 34; 58; 34; 110; 51; 119; 34; 46; 116; 120; 116; 10; 32; 32; 97; 98; 99; 100; 32; 49; 10; 45; 45; 45; 10].
